@@ -212,7 +212,7 @@ class C01(Prop):
                     for q in qs[:3]:
                         yield mk_q_case("quantile1" if k % 2 else "quantile", et, strat, [n], 0, vals, [q], lay, mode)
         # n-D, every axis
-        nnd = 120 if tier == "quick" else 1500
+        nnd = 120 if tier == "quick" else 5000
         for _ in range(nnd):
             nd = rng.range(2, 4)
             shape = [rng.range(1, 4) for _ in range(nd)]
@@ -232,7 +232,7 @@ class C01(Prop):
                 else:
                     yield mk_q_case("quantiles", et, strat, shape, axis, vals, qs, lay, mode)
         # longer lanes
-        for _ in range(60 if tier == "quick" else 600):
+        for _ in range(60 if tier == "quick" else 2400):
             n = rng.range(13, 120)
             et = rng.choice(ALL_ETS)
             strat = rng.below(5)
